@@ -239,6 +239,45 @@ def c16_4(c: Ctx) -> None:
 
 
 
+@ob('C16.6', 'EFFECT', 'a handler starts as soon as its executor task starts: between the entry of the task payload (execute_handler, or a wrapper of it) and the invocation of the handler '
+    'nothing suspends — no internal queue, slot or semaphore a task could be parked in while stop() cancels the run loop and returns, only to start its handler afterwards')
+def c16_6(c: Ctx) -> None:
+    from .c01 import HANDLER_WRAPPERS, exec_handler_sites, handler_invocations
+
+    exec_handler_sites(c)
+    eh = c.unit(SVC, 'EventBus.execute_handler')
+    payloads = [(eh, lambda n, g=None: False)]
+    inv = [call for x, call in handler_invocations(c) if x.key == eh.key]
+    c.floor(len(inv), 1, 'handler invocations in execute_handler')
+    units = [(eh, {id(q.stmt_of(call)) for call in inv}, 'the handler invocation')]
+    for w in HANDLER_WRAPPERS.get(id(c.prog), {}).values():
+        units.append((w, {id(q.stmt_of(x)) for x in own_nodes(w.node) if isinstance(x, ast.Call) and call_name(x) == 'execute_handler'}, 'the call of execute_handler'))
+    from sa.cfg import search
+
+    for u, targets, what in units:
+        g = c.cfg(u)
+        tnodes = [n for n in g.live_nodes() if n.ast is not None and id(n.ast) in targets]
+        if not tnodes:
+            raise AnalysisError(f'{u}: {what} not found in the CFG')
+        tids = {n.id for n in tnodes}
+        susp = [n for n in g.live_nodes() if n.id not in tids and q.node_has_await(n)]
+        bad = None
+        for sn in susp:
+            # a suspension point that lies on a path entry -> ... -> target
+            p1 = search([(g.entry, ())], is_target=lambda n, d, sn=sn: n is sn, is_barrier=lambda n, d: n.id in tids, edge_ok=lambda n, e, d: None if e.is_exc else d)
+            if p1 is None:
+                continue
+            p2 = search([(sn, ())], is_target=lambda n, d: n.id in tids, edge_ok=lambda n, e, d: None if e.is_exc else d)
+            if p2 is not None:
+                bad = (sn, p1)
+                break
+        if bad is None:
+            c.ok(where(u), f'{u.name}: no suspension point before {what}', suspension_points=len(susp))
+        else:
+            c.fail(u, f'`{bad[0].text(60)}` suspends before {what}', 'a handler task can be parked before its handler starts (waiting for a slot / semaphore / queue): stop() cancels the run loop and returns, the '
+                   'parked task gets its turn afterwards and starts a handler of a stopped bus', node=bad[0].ast, witness=c.path(g.entry, bad[1]))
+
+
 @ob('C16.5', 'WMW', '_is_running becomes True only in _start(); it is cleared only by stop(), the run loop\'s own finally, the loop-close hook and __del__: nothing restarts or '
     'half-stops a bus behind stop()\'s back')
 def c16_5(c: Ctx) -> None:
